@@ -245,17 +245,29 @@ func c09ResponseSubsets(c *Ctx) {
 	for _, tr := range c01Trusts() {
 		tcfg := defaultCfg()
 		tr.set(&tcfg)
-		for kind := 0; kind <= 4; kind++ {
+		for kind := 0; kind <= 7; kind++ {
 			for _, onResp := range []bool{true, false} {
 				n++
 				rs, as := validSpecs(tcfg, now, fmt.Sprint(n))
 				a := buildAssertion(as)
 				var r *Node
+				odd := func(sig *Node) {
+					switch kind {
+					case 5: // undecodable certificate text
+						sig.SetKeyInfo(kiBad, 0)
+					case 6:
+						sig.SetKeyInfo(kiNone, 0)
+					case 7:
+						sig.SetKeyInfo(kiEmpty, 0)
+					default:
+						sig.SetKeyInfoOdd(kind)
+					}
+				}
 				if onResp {
 					r = buildResponse(rs, a)
-					SignInto(r, 0).SetKeyInfoOdd(kind)
+					odd(SignInto(r, 0))
 				} else {
-					SignInto(a, 0).SetKeyInfoOdd(kind)
+					odd(SignInto(a, 0))
 					r = buildResponse(rs, a)
 				}
 				addRun(c, g, &Run{Cfg: tcfg, IDs: []string{"req-1"}, Now: now, Cur: tcfg.AcsURL, Doc: r},
@@ -355,8 +367,35 @@ func c09Logout(c *Ctx) {
 }
 
 type faultRT struct {
-	mode string
-	body string
+	mode   string
+	body   string
+	opened int // response bodies handed to the library
+	closed int // ... and closed by it
+}
+
+// trackedBody counts Close calls: a body the library does not close keeps its connection (with a
+// connection limit on the transport the next resolution then blocks for ever)
+type trackedBody struct {
+	io.ReadCloser
+	f    *faultRT
+	done bool
+}
+
+func (t *trackedBody) Close() error {
+	if !t.done {
+		t.done = true
+		t.f.closed++
+	}
+	return t.ReadCloser.Close()
+}
+
+func (f *faultRT) RoundTrip(req *http.Request) (*http.Response, error) {
+	resp, err := f.roundTrip(req)
+	if resp != nil && resp.Body != nil {
+		f.opened++
+		resp.Body = &trackedBody{ReadCloser: resp.Body, f: f}
+	}
+	return resp, err
 }
 
 type errReader struct{}
@@ -364,7 +403,7 @@ type errReader struct{}
 func (errReader) Read([]byte) (int, error) { return 0, errors.New("connection reset") }
 func (errReader) Close() error             { return nil }
 
-func (f *faultRT) RoundTrip(req *http.Request) (*http.Response, error) {
+func (f *faultRT) roundTrip(req *http.Request) (*http.Response, error) {
 	switch f.mode {
 	case "stall-until-request-context-ends":
 		// a resolver that never answers: the call must end when the inbound request's context ends
@@ -442,10 +481,10 @@ func c09Resolver(c *Ctx) {
 				}
 			})
 			var ire *saml.InvalidResponseError
-			ok := panicked == "" && a == nil && err != nil && errors.As(err, &ire) && err.Error() == "Authentication failed"
+			ok := panicked == "" && a == nil && err != nil && errors.As(err, &ire) && err.Error() == "Authentication failed" && m.closed == m.opened
 			c.Count("class/resolver-fault")
 			c.Add(g, &Case{Key: map[string]string{"class": "resolver-fault", "mode": m.mode, "http_client": client}, Input: map[string]any{"resolver": m.mode, "http_client": client},
-				Obs: map[string]any{"panic": panicked, "err": fmt.Sprint(err), "assertion_nil": a == nil}, Term: fmt.Sprint(ok), ImplSpecOK: Bptr(ok), Dedup: m.mode + "/" + client})
+				Obs: map[string]any{"panic": panicked, "err": fmt.Sprint(err), "assertion_nil": a == nil, "bodies_handed_out": m.opened, "bodies_closed": m.closed}, Term: fmt.Sprint(ok), ImplSpecOK: Bptr(ok), Dedup: m.mode + "/" + client})
 		}
 	}
 }
